@@ -4,6 +4,7 @@ import NrDaemon.Driver.Metrics
 import NrDaemon.Driver.Limits
 import NrDaemon.Driver.Respawn
 import NrDaemon.Driver.Frame
+import NrDaemon.Driver.Lasp
 /-!
   Op-line driver (core Lean only; built as a `lean_exe`).
 
@@ -26,6 +27,7 @@ def dispatch (st : DState) (line : String) (impl : Option String) : DState × St
   | some "lim" => (st, limStep t impl)
   | some "respawn" => (st, respawnStep t impl)
   | some "frame" => (st, frameStep t impl)
+  | some "lasp" => (st, laspStep t impl)
   | some "reset" => ({}, { model := "ok" })
   | _ => (st, { model := "bad-op" })
 
